@@ -88,6 +88,22 @@ def run(ctx):
             for r_ in (s, n - s, (s % 65536) + 65536 * (n >> 40)):
                 for enc in encs:
                     add(enc, n, r_ % n, s)
+    # orders interleaved call by call (A B A A B C A ...): an encoder may not remember anything about earlier calls.  The
+    # walk revisits the few most recent orders most of the time (the access pattern that exposes small caches / memo tables)
+    pool_orders = [n for _, n in orders if n.bit_length() > 100][:17] + [2 ** 64 + 13, 2 ** 53 + 5]
+    recent = []
+    for t in range(900 if quick else 6000):
+        if recent and rnd.random() < 0.6:
+            n = rnd.choice(recent[-4:])
+        else:
+            n = rnd.choice(pool_orders)
+        if n in recent:
+            recent.remove(n)
+        recent.append(n)
+        h = n // 2
+        s_ = rnd.choice([h + 1 + rnd.randrange(1, 2 ** 20), h - rnd.randrange(1, 2 ** 20), rnd.randrange(h + 1, n), rnd.randrange(1, h),
+                         n - 1, 1, h, h + 1])
+        add(list(encs)[t % 3], n, rnd.randrange(1, n), s_)
     ctx.evaluations += len(events)
     bad, st = core.validate_traces(ctx.workdir, "SigTrace", sigcommon.TRACE_CFG, events)
     ctx.add_stats(st)
